@@ -47,8 +47,12 @@ def random_grammar(rnd, nT=None, nN=None, max_alts=3, max_len=3, p_term=0.55, p_
             # an alias after the name (a string or a character; it names nothing: the token keeps its name and its code)
             t['alias'] = rnd.choice(['"n0"', '"number"', '"<="', "'q'", '"%s"' % t['name'].upper(), "'+'"])
         elif not t['lit'] and rnd.random() < 0.2:
-            # declared twice, the way the examples do it: first with its tag, later (after the other declarations) without a tag
+            # declared twice, the way the examples do it: first with its tag, later (after the other declarations) without a tag -
+            # and, as in the examples, the explicit number (a small one, where the automatic numbers start) stands in the second line
             t['redecl'] = True
+            if rnd.random() < 0.5:
+                used = set(x.get('num') for x in terms)
+                t['num'] = next(v for v in rnd.sample([3, 4, 5, 6, 7, 8, 300, 301], 8) if v not in used)
     rules = []
     lens = [0, 1, 1, 2, 2, 3, 3, 4][:max(2, 2 * max_len)]
     for a in range(nN):
@@ -554,6 +558,10 @@ CURATED = {
     # in a different order (rule numbering: A < X < B < Y < C)
     'unit_term3': ('P: E ; E: T ; T: T * F | T / F | T % F | F ; F: ( E ) | - F | id', ()),
     'expr3': ('E: E + T | E - T | T ; T: T * F | T / F | T % F | F ; F: ( E ) | - F | id', ()),
+    # two nonterminals without anything shiftable after them, each ending two rules with different left sides, whose follow sets
+    # share a first contribution and differ in the second ('=' for name, ':' for num)
+    'follow_share': ('line: operand + operand | operand - operand | operand * operand | target = operand | label : operand ; '
+                     'operand: name | num ; target: name ; label: num ; name: ID ; num: NUM', ()),
     'two_paths': ('A: q C ; X: p A ; B: p q t ; Y: p q C ; C: t u ; S: k X | k B | l Y | l B', ()),
 }
 
@@ -605,7 +613,7 @@ def render_decls(g, lang='go', with_tags=True):
         if not t.get('declared', True):
             continue
         tag = '<%s> ' % t['tag'] if (with_tags and t['tag']) else ''
-        num = ' %d' % t['num'] if t.get('num') is not None else (' ' + t['alias'] if t.get('alias') and not t['lit'] else '')
+        num = ' %d' % t['num'] if (t.get('num') is not None and not t.get('redecl')) else (' ' + t['alias'] if t.get('alias') and not t['lit'] else '')
         out.append('%%token %s%s%s\n' % (tag, tname(g, i), num))
     if with_tags:
         for n in g['nonterms']:
@@ -623,7 +631,7 @@ def render_decls(g, lang='go', with_tags=True):
 
 def redeclarations(g):
     """Second, untagged declarations of the tokens flagged `redecl` (written after the %type lines)."""
-    return ['%%token %s\n' % t['name'] for t in g['terms'] if t.get('redecl') and t.get('declared', True) and not t['lit']]
+    return ['%%token %s%s\n' % (t['name'], ' %d' % t['num'] if t.get('num') is not None else '') for t in g['terms'] if t.get('redecl') and t.get('declared', True) and not t['lit']]
 
 
 def render_rules(g, action=None):
